@@ -99,3 +99,539 @@ Proof. reflexivity. Qed.
 Theorem unrelated_write_is_noop : forall e ty, memn ty (e_types e) = false ->
   m_step e (MEdgeWrite ty) = e.
 Proof. intros e ty H. cbn. rewrite H. reflexivity. Qed.
+
+(* ================= 3. Fenwick tree over an abstract array ================= *)
+Lemma lowbitp_le : forall p, (Z.pos (lowbitp p) <= Z.pos p)%Z.
+Proof. induction p; cbn [lowbitp]; lia. Qed.
+
+Lemma lowbitp_up : forall p,
+  (Z.pos (p + lowbitp p) - Z.pos (lowbitp (p + lowbitp p)) <= Z.pos p - Z.pos (lowbitp p))%Z.
+Proof.
+  induction p as [p IH|p IH|]; cbn [lowbitp].
+  - change (p~1 + 1)%positive with (Pos.succ p)~0%positive. cbn [lowbitp]. lia.
+  - change (p~0 + (lowbitp p)~0)%positive with (p + lowbitp p)~0%positive. cbn [lowbitp]. lia.
+  - cbn. lia.
+Qed.
+
+Lemma lowbitp_gap : forall p k,
+  (Z.pos p < Z.pos k < Z.pos p + Z.pos (lowbitp p))%Z -> (Z.pos p <= Z.pos k - Z.pos (lowbitp k))%Z.
+Proof.
+  induction p as [p IH|p IH|]; intros k H; cbn [lowbitp] in H; try lia.
+  destruct k as [k|k|]; cbn [lowbitp]; try lia.
+Qed.
+
+Lemma lowbit_pos_eq : forall p, lowbit (Pos.to_nat p) = Pos.to_nat (lowbitp p).
+Proof. intros p. unfold lowbit. rewrite positive_nat_N. reflexivity. Qed.
+
+Lemma lowbit_bounds : forall j, 0 < j -> 0 < lowbit j <= j.
+Proof.
+  intros j Hj. rewrite <- (Nat2Pos.id j) by lia. rewrite lowbit_pos_eq.
+  pose proof (lowbitp_le (Pos.of_nat j)). lia.
+Qed.
+
+Lemma lowbit_up : forall j, 0 < j ->
+  (j + lowbit j) - lowbit (j + lowbit j) <= j - lowbit j.
+Proof.
+  intros j Hj. rewrite <- (Nat2Pos.id j) by lia. set (p := Pos.of_nat j).
+  rewrite lowbit_pos_eq, <- Pos2Nat.inj_add, lowbit_pos_eq.
+  pose proof (lowbitp_up p). pose proof (lowbitp_le p). pose proof (lowbitp_le (p + lowbitp p)). lia.
+Qed.
+
+Lemma lowbit_gap : forall j k, 0 < j -> j < k < j + lowbit j -> j <= k - lowbit k.
+Proof.
+  intros j k Hj H. rewrite <- (Nat2Pos.id j) in * by lia. rewrite <- (Nat2Pos.id k) in * by lia.
+  set (p := Pos.of_nat j) in *. set (q := Pos.of_nat k) in *.
+  rewrite lowbit_pos_eq in *.
+  pose proof (lowbitp_gap p q). pose proof (lowbitp_le q). lia.
+Qed.
+
+(* list helpers *)
+Lemma upd_length : forall A (l : list A) i v, length (upd l i v) = length l.
+Proof. induction l; destruct i; cbn; auto. Qed.
+
+Lemma nth_upd : forall A (l : list A) i j v d, i < length l ->
+  nth j (upd l i v) d = if j =? i then v else nth j l d.
+Proof.
+  induction l as [|x l IH]; intros i j v d Hi; cbn in Hi; [lia|].
+  destruct i, j; cbn; auto. rewrite IH by lia. reflexivity.
+Qed.
+
+Lemma nth_upd_other : forall A (l : list A) i j v d, j <> i -> nth j (upd l i v) d = nth j l d.
+Proof.
+  induction l as [|x l IH]; intros i j v d Hi; [destruct i; reflexivity|].
+  destruct i, j; cbn; auto; try lia; try (apply IH; lia).
+Qed.
+
+(* prefix sums of an abstract array *)
+Fixpoint sum_to (a : nat -> Z) (k : nat) : Z :=
+  match k with O => 0%Z | S k' => (sum_to a k' + a k')%Z end.
+
+Definition addf (a : nat -> Z) (pos : nat) (d : Z) : nat -> Z :=
+  fun i => if i =? pos then (a i + d)%Z else a i.
+
+Lemma sum_to_ext : forall a b k, (forall i, i < k -> a i = b i) -> sum_to a k = sum_to b k.
+Proof. induction k; intros H; cbn; auto. rewrite IHk, H; auto. Qed.
+
+Lemma sum_to_addf : forall a pos d k,
+  sum_to (addf a pos d) k = (sum_to a k + (if Nat.ltb pos k then d else 0))%Z.
+Proof.
+  induction k; cbn [sum_to]; [cbn; lia|]. rewrite IHk. unfold addf.
+  destruct (Nat.eqb_spec k pos); destruct (Nat.ltb_spec pos k); destruct (Nat.ltb_spec pos (S k)); lia.
+Qed.
+
+(* the Fenwick invariant: cell j holds the sum of a[j - lowbit j, j) *)
+Definition fw_inv (t : list Z) (a : nat -> Z) (n : nat) : Prop :=
+  length t = S n /\ forall j, 1 <= j <= n -> nth j t 0%Z = (sum_to a j - sum_to a (j - lowbit j))%Z.
+
+Definition covers (k p : nat) : bool := (k - lowbit k <? p) && (p <=? k).
+
+Lemma fw_add_loop_spec : forall fuel t n j d p,
+  length t = S n -> 0 < j -> covers j p = true -> n < j + fuel ->
+  length (fw_add_loop fuel t n j d) = S n /\ forall k, nth k (fw_add_loop fuel t n j d) 0%Z =
+            (nth k t 0 + (if Nat.leb j k && Nat.leb k n && covers k p then d else 0))%Z.
+Proof.
+  induction fuel as [|f IH]; intros t n j d p Hlen Hj Hc Hf; cbn [fw_add_loop].
+  - split; auto. intros k. destruct (Nat.leb_spec j k); destruct (Nat.leb_spec k n); cbn; lia.
+  - destruct (Nat.leb_spec j n) as [Hjn|Hjn].
+    + pose proof (lowbit_bounds j Hj) as Hb. pose proof (lowbit_up j Hj) as Hu.
+      assert (Hc' : covers (j + lowbit j) p = true).
+      { unfold covers in *. apply andb_true_iff in Hc as [H1 H2].
+        apply Nat.ltb_lt in H1. apply Nat.leb_le in H2.
+        apply andb_true_iff; split; [apply Nat.ltb_lt|apply Nat.leb_le]; lia. }
+      destruct (IH (upd t j (nth j t 0 + d)%Z) n (j + lowbit j) d p) as [IL IK];
+        try rewrite upd_length; auto; try lia.
+      split; auto. intros k. rewrite IK. rewrite nth_upd by lia.
+      unfold covers in Hc. apply andb_true_iff in Hc as [H1 H2].
+      apply Nat.ltb_lt in H1. apply Nat.leb_le in H2.
+      destruct (Nat.eqb_spec k j) as [->|Hkj].
+      * replace (covers j p) with true by (unfold covers; symmetry; apply andb_true_iff; split;
+          [apply Nat.ltb_lt|apply Nat.leb_le]; lia).
+        destruct (Nat.leb_spec (j + lowbit j) j); destruct (Nat.leb_spec j j); destruct (Nat.leb_spec j n);
+          cbn; lia.
+      * destruct (Nat.leb_spec (j + lowbit j) k) as [Hk|Hk]; destruct (Nat.leb_spec j k) as [Hk2|Hk2];
+          destruct (Nat.leb_spec k n); cbn [andb]; try lia.
+        (* j < k < j + lowbit j : k does not cover p *)
+        assert (j <= k - lowbit k) by (apply lowbit_gap; lia).
+        unfold covers. destruct (Nat.ltb_spec (k - lowbit k) p); cbn; lia.
+    + split; auto. intros k. destruct (Nat.leb_spec j k); destruct (Nat.leb_spec k n); cbn; lia.
+Qed.
+
+Lemma fw_add_inv : forall t a n pos d, fw_inv t a n -> pos < n ->
+  fw_inv (fw_add t pos d) (addf a pos d) n.
+Proof.
+  intros t a n pos d [Hlen Hinv] Hpos. unfold fw_add. rewrite Hlen. replace (S n - 1) with n by lia.
+  assert (Hc : covers (pos + 1) (pos + 1) = true).
+  { unfold covers. pose proof (lowbit_bounds (pos + 1)).
+    apply andb_true_iff; split; [apply Nat.ltb_lt|apply Nat.leb_le]; lia. }
+  destruct (fw_add_loop_spec (S n) t n (pos + 1) d (pos + 1)) as [HL HK]; auto; try lia.
+  split; auto. intros j Hj. rewrite HK, Hinv by lia. rewrite !sum_to_addf.
+  pose proof (lowbit_bounds j). unfold covers.
+  destruct (Nat.leb_spec (pos + 1) j); destruct (Nat.leb_spec j n); destruct (Nat.ltb_spec (j - lowbit j) (pos + 1));
+    destruct (Nat.ltb_spec pos j); destruct (Nat.ltb_spec pos (j - lowbit j)); cbn; lia.
+Qed.
+
+Lemma fw_prefix_loop_spec : forall t a n, fw_inv t a n ->
+  forall fuel i acc, i <= n -> i <= fuel ->
+  fw_prefix_loop fuel t i acc = (acc + sum_to a i)%Z.
+Proof.
+  intros t a n [Hlen Hinv]. induction fuel as [|f IH]; intros i acc Hi Hf; cbn [fw_prefix_loop].
+  - replace i with 0 by lia. cbn. lia.
+  - destruct (Nat.ltb_spec 0 i) as [Hpos|Hz].
+    + pose proof (lowbit_bounds i Hpos). rewrite IH by lia. rewrite Hinv by lia. lia.
+    + replace i with 0 by lia. cbn. lia.
+Qed.
+
+Lemma fw_prefix_spec : forall t a n i, fw_inv t a n -> fw_prefix t i = sum_to a (Nat.min i n).
+Proof.
+  intros t a n i H. unfold fw_prefix. destruct H as [Hlen Hinv] eqn:E. rewrite Hlen.
+  replace (S n - 1) with n by lia. erewrite fw_prefix_loop_spec; eauto; lia.
+Qed.
+
+Theorem fw_range_spec : forall t a n lo hi, fw_inv t a n -> lo <= hi -> hi < n ->
+  fw_range t lo hi = (sum_to a (hi + 1) - sum_to a lo)%Z.
+Proof.
+  intros t a n lo hi H Hlo Hhi. unfold fw_range.
+  destruct (Nat.ltb_spec hi lo); [lia|].
+  rewrite !(fw_prefix_spec t a n) by auto. rewrite !Nat.min_l by lia. reflexivity.
+Qed.
+
+Lemma fw_inv_ext : forall t a b n, fw_inv t a n -> (forall i, a i = b i) -> fw_inv t b n.
+Proof.
+  intros t a b n [Hlen Hinv] Hab. split; auto. intros j Hj. rewrite Hinv by auto.
+  rewrite (sum_to_ext a b j), (sum_to_ext a b (j - lowbit j)); auto.
+Qed.
+
+Lemma fw_inv_zero : forall n, fw_inv (repeat 0%Z (S n)) (fun _ => 0%Z) n.
+Proof.
+  intros n. split; [apply repeat_length|]. intros j Hj.
+  assert (Hz : forall k, sum_to (fun _ => 0%Z) k = 0%Z) by (induction k; cbn; lia).
+  rewrite !Hz. rewrite nth_repeat. reflexivity.
+Qed.
+
+Lemma fw_build_fold : forall n l t k a, fw_inv t a n -> k + length l <= n ->
+  let r := fold_left (fun (st : list Z * nat) v => (fw_add (fst st) (snd st) v, S (snd st))) l (t, k) in
+  fw_inv (fst r) (fun i => (a i + (if Nat.leb k i && Nat.ltb i (k + length l) then nth (i - k) l 0 else 0))%Z) n.
+Proof.
+  intros n. induction l as [|v l IH]; intros t k a Hinv Hk; cbn [fold_left fst snd length] in *.
+  - eapply fw_inv_ext; eauto. intros i. destruct (Nat.leb_spec k i); destruct (Nat.ltb_spec i (k + 0)); cbn; lia.
+  - eapply fw_inv_ext.
+    + apply (IH (fw_add t k v) (S k) (addf a k v)); [apply fw_add_inv; auto; lia | lia].
+    + intros i. cbn beta. unfold addf.
+      destruct (Nat.eqb_spec i k) as [->|Hik].
+      * replace (k - k) with 0 by lia. cbn [nth].
+        destruct (Nat.leb_spec (S k) k); destruct (Nat.leb_spec k k); destruct (Nat.ltb_spec k (k + S (length l)));
+          cbn [andb]; lia.
+      * destruct (Nat.leb_spec (S k) i); destruct (Nat.leb_spec k i); destruct (Nat.ltb_spec i (S k + length l));
+          destruct (Nat.ltb_spec i (k + S (length l))); cbn [andb]; try lia.
+        replace (i - k) with (S (i - S k)) by lia. cbn [nth]. lia.
+Qed.
+
+Theorem fw_build_inv : forall vs, fw_inv (fw_build vs) (fun i => nth i vs 0%Z) (length vs).
+Proof.
+  intros vs. unfold fw_build.
+  eapply fw_inv_ext.
+  - apply (fw_build_fold (length vs) vs (repeat 0%Z (S (length vs))) 0 (fun _ => 0%Z)); [apply fw_inv_zero | lia].
+  - intros i. cbn beta. destruct (Nat.leb_spec 0 i); [|lia]. rewrite Nat.sub_0_r.
+    destruct (Nat.ltb_spec i (0 + length vs)); cbn [andb]; [lia|].
+    rewrite nth_overflow by lia. lia.
+Qed.
+
+(* ================= 4. nested-set labelling of a forest ================= *)
+Lemma NoDup_app_intro : forall A (l1 l2 : list A),
+  NoDup l1 -> NoDup l2 -> (forall x, In x l1 -> ~ In x l2) -> NoDup (l1 ++ l2).
+Proof.
+  induction l1 as [|a l1 IH]; intros l2 H1 H2 Hd; cbn; auto.
+  inversion H1; subst. constructor.
+  - rewrite in_app_iff. intros [H|H]; [auto|]. apply (Hd a); cbn; auto.
+  - apply IH; auto. intros x Hx. apply Hd. cbn; auto.
+Qed.
+
+Lemma NoDup_flat_map : forall A B (f : A -> list B) (l : list A),
+  NoDup l -> (forall a, In a l -> NoDup (f a)) ->
+  (forall a b x, In a l -> In b l -> a <> b -> In x (f a) -> ~ In x (f b)) ->
+  NoDup (flat_map f l).
+Proof.
+  induction l as [|a l IH]; intros Hl Hf Hd; cbn; [constructor|].
+  inversion Hl; subst. apply NoDup_app_intro.
+  - apply Hf; cbn; auto.
+  - apply IH; auto.
+    + intros b Hb. apply Hf; cbn; auto.
+    + intros b c x Hb Hc. apply Hd; cbn; auto.
+  - intros x Hx Hin. apply in_flat_map in Hin as [b [Hb Hxb]].
+    apply (Hd a b x); cbn; auto. intros ->. auto.
+Qed.
+
+Lemma idx_app_head : forall x A R, ~ In x A -> index_of x (A ++ x :: R) = length A.
+Proof.
+  induction A as [|a A IH]; intros R H; cbn.
+  - rewrite Nat.eqb_refl. reflexivity.
+  - destruct (Nat.eqb_spec x a) as [->|Hne]; [exfalso; apply H; cbn; auto|].
+    rewrite IH; auto. intros Hin. apply H; cbn; auto.
+Qed.
+
+Lemma nth_index_of : forall x l d, In x l -> nth (index_of x l) l d = x.
+Proof.
+  induction l as [|a l IH]; intros d H; [destruct H|]. cbn.
+  destruct (Nat.eqb_spec x a) as [->|Hne]; auto. apply IH. destruct H; congruence.
+Qed.
+
+Lemma nth_map_seq : forall A (f : nat -> A) n x d, x < n -> nth x (map f (seq 0 n)) d = f x.
+Proof.
+  intros A f n x d H. rewrite (nth_indep _ d (f 0)) by (rewrite map_length, seq_length; auto).
+  rewrite map_nth, seq_nth; auto.
+Qed.
+
+Lemma nth_mid : forall (A M B : list nat) i d, length A <= i < length A + length M ->
+  In (nth i (A ++ M ++ B) d) M.
+Proof.
+  intros A M B i d H. rewrite app_nth2 by lia. rewrite app_nth1 by lia. apply nth_In. lia.
+Qed.
+
+Lemma slice_mid : forall (A M B : list nat), M <> [] ->
+  slice (A ++ M ++ B) (length A) (length A + length M - 1) = M.
+Proof.
+  intros A M B HM. unfold slice.
+  assert (0 < length M) by (destruct M; cbn; [congruence|lia]).
+  replace (length A + length M - 1 + 1 - length A) with (length M) by lia.
+  rewrite skipn_app, skipn_all, Nat.sub_diag. cbn [skipn app].
+  rewrite firstn_app, firstn_all, Nat.sub_diag. cbn. apply app_nil_r.
+Qed.
+
+Section Forest.
+  Variables (n : nat) (par ch : nat -> list nat) (rts : list nat) (rk : nat -> nat).
+  Hypothesis Hrk : ranked par n rk.
+  Hypothesis Hrkn : forall v, rk v < n.
+  Hypothesis Hch : forall c v, In c (ch v) <-> In v (par c).
+  Hypothesis Hone : forall c, length (par c) <= 1.
+  Hypothesis Hnd : forall v, NoDup (ch v).
+  Hypothesis Hrts_nd : NoDup rts.
+  Hypothesis Hrts : forall r, In r rts <-> (r < n /\ par r = []).
+  Hypothesis Hlt : forall c v, In v (par c) -> c < n /\ v < n.
+
+  Let T := preorder (S n) ch.
+  Let order := flat_map T rts.
+
+  Lemma preorder_fuel : forall f f' v, rk v < f -> rk v < f' -> preorder f ch v = preorder f' ch v.
+  Proof.
+    induction f as [|f IH]; intros f' v H1 H2; [lia|]. destruct f'; [lia|]. cbn. f_equal.
+    rewrite !flat_map_concat_map. f_equal. apply map_ext_in. intros c Hc.
+    apply Hch in Hc. destruct (Hrk c v Hc). apply IH; lia.
+  Qed.
+
+  Lemma T_eq : forall v, T v = v :: flat_map T (ch v).
+  Proof.
+    intros v. unfold T.
+    change (preorder (S n) ch v) with (v :: flat_map (preorder n ch) (ch v)). f_equal.
+    rewrite !flat_map_concat_map. f_equal. apply map_ext_in. intros c Hc.
+    apply preorder_fuel; auto.
+    apply Hch in Hc. destruct (Hrk c v Hc). pose proof (Hrkn v). lia.
+  Qed.
+
+  Lemma rk_ind : forall P : nat -> Prop,
+    (forall v, (forall c, In c (ch v) -> P c) -> P v) -> forall v, P v.
+  Proof.
+    intros P H. assert (forall k v, rk v < k -> P v) as G.
+    { induction k as [|k IH]; intros v Hv; [lia|]. apply H. intros c Hc. apply IH.
+      apply Hch in Hc. destruct (Hrk c v Hc). lia. }
+    intros v. apply (G (S (rk v))). lia.
+  Qed.
+
+  Lemma T_head : forall v, In v (T v).
+  Proof. intros v. rewrite T_eq. cbn; auto. Qed.
+
+  Lemma T_closed : forall v q x, In q (T v) -> In x (ch q) -> In x (T v).
+  Proof.
+    intros v. pattern v. apply rk_ind. clear v. intros v IH q x Hq Hx.
+    rewrite T_eq in Hq |- *. destruct Hq as [<-|Hq].
+    - right. apply in_flat_map. exists x; split; auto. apply T_head.
+    - right. apply in_flat_map in Hq as [c [Hc Hqc]]. apply in_flat_map. exists c; split; auto.
+      eapply IH; eauto.
+  Qed.
+
+  Lemma in_T_reach : forall v x, In x (T v) <-> reach par x v.
+  Proof.
+    intros v x; split.
+    - revert x. pattern v. apply rk_ind. clear v. intros v IH x Hx.
+      rewrite T_eq in Hx. destruct Hx as [<-|Hx]; [constructor|].
+      apply in_flat_map in Hx as [c [Hc Hxc]].
+      eapply reach_trans; [apply IH; eauto|].
+      eapply reach_step; [apply Hch; eauto|constructor].
+    - intros H. induction H as [v|x q v Hin _ IH]; [apply T_head|].
+      eapply T_closed; eauto. apply Hch; auto.
+  Qed.
+
+  Lemma T_sub : forall v x, In x (T v) -> exists A B, T v = A ++ T x ++ B.
+  Proof.
+    intros v. pattern v. apply rk_ind. clear v. intros v IH x Hx.
+    rewrite (T_eq v) in Hx. destruct Hx as [<-|Hx].
+    - exists [], []. rewrite app_nil_r. reflexivity.
+    - apply in_flat_map in Hx as [c [Hc Hxc]].
+      destruct (IH c Hc x Hxc) as [A [B E]].
+      destruct (in_split _ _ Hc) as [l1 [l2 El]].
+      exists (v :: flat_map T l1 ++ A), (B ++ flat_map T l2).
+      rewrite (T_eq v), El, flat_map_app. cbn [flat_map]. rewrite E.
+      cbn [app]. repeat rewrite <- app_assoc. reflexivity.
+  Qed.
+
+  Lemma par_unique : forall x q q', In q (par x) -> In q' (par x) -> q = q'.
+  Proof.
+    intros x q q' H1 H2. pose proof (Hone x) as Hl.
+    destruct (par x) as [|a [|b l]]; cbn in *; try lia; intuition congruence.
+  Qed.
+
+  Lemma anc_chain : forall x a b, reach par x a -> reach par x b -> reach par a b \/ reach par b a.
+  Proof.
+    intros x a b Ha. revert b. induction Ha as [x|x q a Hin Hq IH]; intros b Hb; auto.
+    destruct Hb as [x|x q' b Hin' Hq'].
+    - right. eapply reach_step; eauto.
+    - rewrite (par_unique x q' q Hin' Hin) in Hq'. auto.
+  Qed.
+
+  Lemma sib_no_reach : forall v c1 c2, In c1 (ch v) -> In c2 (ch v) -> c1 <> c2 -> ~ reach par c1 c2.
+  Proof.
+    intros v c1 c2 H1 H2 Hne Hr. apply Hch in H1. apply Hch in H2.
+    destruct Hr as [|c1 q c2 Hin Hq]; [congruence|].
+    rewrite (par_unique c1 q v Hin H1) in Hq.
+    pose proof (reach_rank par n rk Hrk _ _ Hq). destruct (Hrk c2 v H2). lia.
+  Qed.
+
+  Lemma NoDup_T : forall v, NoDup (T v).
+  Proof.
+    intros v. pattern v. apply rk_ind. clear v. intros v IH. rewrite T_eq. constructor.
+    - intros Hin. apply in_flat_map in Hin as [c [Hc Hvc]]. apply in_T_reach in Hvc.
+      pose proof (reach_rank par n rk Hrk _ _ Hvc). apply Hch in Hc. destruct (Hrk c v Hc). lia.
+    - apply NoDup_flat_map; auto.
+      intros a b x Ha Hb Hne Hxa Hxb. apply in_T_reach in Hxa. apply in_T_reach in Hxb.
+      destruct (anc_chain x a b Hxa Hxb) as [H|H].
+      + eapply sib_no_reach; [apply Ha|apply Hb| |]; eauto.
+      + eapply sib_no_reach; [apply Hb|apply Ha| |]; eauto.
+  Qed.
+
+  Lemma root_reach : forall r y, In r rts -> reach par r y -> r = y.
+  Proof.
+    intros r y Hr H. apply Hrts in Hr as [_ Hp]. destruct H as [|r q y Hin _]; auto.
+    rewrite Hp in Hin. destruct Hin.
+  Qed.
+
+  Lemma NoDup_order : NoDup order.
+  Proof.
+    unfold order. apply NoDup_flat_map; auto.
+    - intros a _. apply NoDup_T.
+    - intros a b x Ha Hb Hne Hxa Hxb. apply in_T_reach in Hxa. apply in_T_reach in Hxb.
+      destruct (anc_chain x a b Hxa Hxb) as [H|H].
+      + apply Hne. eapply root_reach; eauto.
+      + apply Hne. symmetry. eapply root_reach; eauto.
+  Qed.
+
+  Lemma to_root : forall k v, n - rk v < k -> v < n -> exists r, In r rts /\ reach par v r.
+  Proof.
+    induction k as [|k IH]; intros v Hk Hv; [lia|].
+    destruct (par v) as [|q l] eqn:E.
+    - exists v; split; [apply Hrts; auto|constructor].
+    - assert (Hin : In q (par v)) by (rewrite E; cbn; auto).
+      destruct (Hrk v q Hin). destruct (Hlt v q Hin).
+      destruct (IH q) as [r [Hr Hq]]; try lia.
+      exists r; split; auto. eapply reach_step; eauto.
+  Qed.
+
+  Lemma order_split : forall v, v < n -> exists A B, order = A ++ T v ++ B.
+  Proof.
+    intros v Hv. destruct (to_root (S n) v) as [r [Hr Hvr]]; auto; [lia|].
+    apply in_T_reach in Hvr. destruct (T_sub r v Hvr) as [A [B E]].
+    destruct (in_split _ _ Hr) as [l1 [l2 El]].
+    exists (flat_map T l1 ++ A), (B ++ flat_map T l2).
+    unfold order. rewrite El, flat_map_app. cbn [flat_map]. rewrite E.
+    repeat rewrite <- app_assoc. reflexivity.
+  Qed.
+
+  Lemma in_order : forall v, v < n -> In v order.
+  Proof.
+    intros v Hv. destruct (order_split v Hv) as [A [B E]]. rewrite E.
+    apply in_or_app; right. apply in_or_app; left. apply T_head.
+  Qed.
+
+  Lemma pos_of : forall v A B, order = A ++ T v ++ B -> index_of v order = length A.
+  Proof.
+    intros v A B E. pose proof NoDup_order as Hnd'. rewrite E in *. rewrite (T_eq v) in *.
+    cbn [app] in *. apply idx_app_head.
+    apply NoDup_remove_2 in Hnd'. intros Hin. apply Hnd'. apply in_or_app; auto.
+  Qed.
+
+  Lemma T_nonempty : forall v, length (T v) >= 1.
+  Proof. intros v. rewrite T_eq. cbn. lia. Qed.
+
+  Definition tin_of (v : nat) := index_of v order.
+  Definition tout_of (v : nat) := index_of v order + length (T v) - 1.
+
+  Theorem forest_inside : forall x y, x < n -> y < n ->
+    ((tin_of y <=? tin_of x) && (tout_of x <=? tout_of y) = true <-> reach par x y).
+  Proof.
+    intros x y Hx Hy. unfold tin_of, tout_of.
+    destruct (order_split y Hy) as [A [B E]].
+    pose proof (T_nonempty x). pose proof (T_nonempty y).
+    rewrite (pos_of y A B E). split.
+    - intros H'. apply andb_true_iff in H' as [H1 H2]. apply Nat.leb_le in H1, H2.
+      apply in_T_reach.
+      replace x with (nth (index_of x order) order 0) by (apply nth_index_of, in_order; auto).
+      rewrite E. apply nth_mid. rewrite <- E. lia.
+    - intros Hr. apply in_T_reach in Hr. destruct (T_sub y x Hr) as [A' [B' E']].
+      assert (E2 : order = (A ++ A') ++ T x ++ (B' ++ B)).
+      { rewrite E, E'. repeat rewrite <- app_assoc. reflexivity. }
+      rewrite (pos_of x _ _ E2). rewrite E'. rewrite !app_length.
+      apply andb_true_iff; split; apply Nat.leb_le; lia.
+  Qed.
+
+  Theorem forest_slice : forall y, y < n -> slice order (tin_of y) (tout_of y) = T y.
+  Proof.
+    intros y Hy. unfold tin_of, tout_of. destruct (order_split y Hy) as [A [B E]].
+    rewrite (pos_of y A B E). rewrite E. apply slice_mid.
+    pose proof (T_nonempty y). destruct (T y); cbn in *; [lia|congruence].
+  Qed.
+
+  Theorem forest_count : forall y, tout_of y - tin_of y + 1 = length (T y).
+  Proof. intros y. unfold tin_of, tout_of. pose proof (T_nonempty y). lia. Qed.
+End Forest.
+
+(* ---- the model's nested-set index on a well-formed forest ---- *)
+Record wf_poset (p : poset) (rk : nat -> nat) : Prop := {
+  wf_rk : ranked (parents p) (pn p) rk;
+  wf_rkn : forall v, rk v < pn p;
+  wf_ch : forall c v, In c (children p v) <-> In v (parents p c);
+  wf_nd : forall v, NoDup (children p v);
+  wf_lt : forall c v, In v (parents p c) -> c < pn p /\ v < pn p
+}.
+Definition forest (p : poset) : Prop := forall c, length (parents p c) <= 1.
+
+Lemma roots_spec : forall p r, In r (roots p) <-> (r < pn p /\ parents p r = []).
+Proof.
+  intros p r. unfold roots, nodes. rewrite filter_In, in_seq.
+  destruct (parents p r); split; intros [H1 H2]; split; auto; try lia; discriminate.
+Qed.
+
+Lemma roots_nodup : forall p, NoDup (roots p).
+Proof. intros p. apply NoDup_filter, seq_NoDup. Qed.
+
+Definition mk_index (p : poset) (e : enc) (m : option (list (option Z))) (r : list (rop * rdata)) : index :=
+  {| ix_poset := p; ix_enc := e; ix_measure := m; ix_rollups := r |}.
+
+Lemma spec_subsumes_reach : forall p rk, wf_poset p rk ->
+  forall x y, spec_subsumes p x y = true <-> reach (parents p) x y.
+Proof. intros p rk W x y. unfold spec_subsumes. eapply closure_spec. apply (wf_rk p rk W). Qed.
+
+Lemma spec_desc_spec : forall p rk, wf_poset p rk ->
+  forall x y, In x (spec_desc p y) <-> (x < pn p /\ reach (parents p) x y).
+Proof.
+  intros p rk W x y. unfold spec_desc, nodes. rewrite filter_In, in_seq.
+  rewrite (spec_subsumes_reach p rk W). intuition lia.
+Qed.
+
+Lemma reach_lt : forall p rk, wf_poset p rk -> forall x y, reach (parents p) x y -> y < pn p -> x < pn p.
+Proof.
+  intros p rk W x y H. induction H as [|x q y Hin _ IH]; auto. intros _.
+  apply (wf_lt p rk W) in Hin. tauto.
+Qed.
+
+Theorem nested_subsumes : forall p rk m r, wf_poset p rk -> forest p ->
+  forall x y, x < pn p -> y < pn p ->
+  subsumes (mk_index p (build_nested p) m r) x y = spec_subsumes p x y.
+Proof.
+  intros p rk m r W F x y Hx Hy.
+  apply eq_true_iff_eq. rewrite (spec_subsumes_reach p rk W).
+  unfold subsumes, mk_index, build_nested, nested_arrays, inside; cbn [ix_enc].
+  rewrite !nth_map_seq by auto.
+  apply (forest_inside (pn p) (parents p) (children p) (roots p) rk); auto;
+    try apply W; try apply roots_nodup; try apply roots_spec.
+Qed.
+
+Theorem nested_descendants : forall p rk m r, wf_poset p rk -> forest p ->
+  forall y, y < pn p ->
+  let d := descendants (mk_index p (build_nested p) m r) y in
+  NoDup d /\ (forall x, In x d <-> In x (spec_desc p y)) /\
+  descendant_count (mk_index p (build_nested p) m r) y = length d /\
+  length d = length (spec_desc p y).
+Proof.
+  intros p rk m r W F y Hy.
+  assert (E : descendants (mk_index p (build_nested p) m r) y = preorder (S (pn p)) (children p) y).
+  { unfold descendants, mk_index, build_nested, nested_arrays; cbn [ix_enc].
+    rewrite !nth_map_seq by auto.
+    apply (forest_slice (pn p) (parents p) (children p) (roots p) rk); auto;
+      try apply W; try apply roots_nodup; try apply roots_spec. }
+  cbv zeta. rewrite E.
+  assert (ND : NoDup (preorder (S (pn p)) (children p) y)).
+  { apply (NoDup_T (pn p) (parents p) (children p) (roots p) rk); auto;
+      try apply W; try apply roots_spec. }
+  assert (M : forall x, In x (preorder (S (pn p)) (children p) y) <-> In x (spec_desc p y)).
+  { intros x. rewrite (spec_desc_spec p rk W).
+    rewrite (in_T_reach (pn p) (parents p) (children p) (roots p) rk)
+      by (auto; try apply W; try apply roots_spec).
+    split; [intros H; split; auto; eapply reach_lt; eauto | tauto]. }
+  repeat split; auto; try apply M.
+  - unfold descendant_count, mk_index, build_nested, nested_arrays; cbn [ix_enc].
+    rewrite !nth_map_seq by auto.
+    apply (forest_count (pn p) (parents p) (children p) (roots p) rk); auto;
+      try apply W; try apply roots_spec.
+  - apply Nat.le_antisymm; apply NoDup_incl_length; auto.
+    + intros x Hx. apply M; auto.
+    + unfold spec_desc. apply NoDup_filter, seq_NoDup.
+    + intros x Hx. apply M; auto.
+Qed.
